@@ -827,7 +827,27 @@ func minI(a, b int) int {
 	return b
 }
 
-func (P) Exec(line string) string {
+// Exec runs one line against the real code under a watchdog: a (mutated) tree
+// that blocks or spins must produce an answer ("timeout") instead of hanging the run.
+func (p P) Exec(line string) string {
+	done := make(chan string, 1)
+	go func() {
+		defer func() {
+			if r := recover(); r != nil {
+				done <- "panic"
+			}
+		}()
+		done <- p.exec(line)
+	}()
+	select {
+	case out := <-done:
+		return out
+	case <-time.After(120 * time.Second):
+		return "timeout"
+	}
+}
+
+func (P) exec(line string) string {
 	f := strings.Fields(line)
 	if len(f) >= 4 && f[0] == "C02" && f[1] == "par" && len(f)%2 == 0 {
 		// independent histories on independent chains, run concurrently at staggered offsets
